@@ -32,6 +32,9 @@ Full statement / proved / missing
   that entry's value.
 * `C07_unique_sub`, `C07_unique_cover`, `C07_unique_distinct` — **proved**: the survivors are a sub-sequence of the
   input, every input is equal to a survivor, no two survivors are equal.
+* `C07_uvarint_prefix_code`, `C07_frame_prefix_code`, `C07_frames_injective` — **proved**: the length prefix of a container
+  element is Go's uvarint (modelled bit for bit: 7-bit groups with continuation bit) and is a prefix code for every length;
+  `C07_key_inj` rests on these, not on an assumption.
 * `C07_no_fault` — **proved**: `px.ToKey` of a comparable value does not panic.
 * `C07_key_table_ok`, `C07_prefixes_distinct` — **proved by `decide` over the table regenerated from /repo on every run**
   (`Generated/KeyTable.lean`: the `HkXxx` constants and the leading bytes each `ToKey` writes): they are the bytes the
@@ -54,6 +57,29 @@ theorem C07_symm (x y : Val) (hx : Comparable x) (hy : Comparable y) : veq x y =
 
 theorem C07_trans (x y z : Val) (hx : Comparable x) (hy : Comparable y)
     (h1 : veq x y = true) (h2 : veq y z = true) : veq x z = true := veq_trans x y z hx hy h1 h2
+
+/-! ## the length framing: `binary.PutUvarint` is modelled, and proved to be a prefix code (nothing is assumed) -/
+
+/-- `uvarint` (7-bit groups, least significant first, high bit = continuation — `Model.uvarintAux`) is uniquely
+    decodable from the front of any byte string: for ALL lengths, whatever follows -/
+theorem C07_uvarint_prefix_code (n m : Nat) (x y : Bytes) (h : uvarint n ++ x = uvarint m ++ y) : n = m ∧ x = y :=
+  uvarint_decode h
+
+/-- hence a framed element key `<uvarint length><key>` can be split off the front of a container key in one way only -/
+theorem C07_frame_prefix_code (a b x y : Bytes) (h : frame a ++ x = frame b ++ y) : a = b ∧ x = y := frame_decode h
+
+/-- and a concatenation of frames determines the list of framed keys -/
+theorem C07_frames_injective (as bs : List Bytes) (h : flat (as.map frame) = flat (bs.map frame)) : as = bs :=
+  flat_frames_inj as bs h
+
+/-- the encoding at the boundaries of the length field (one, two and three bytes) is Go's -/
+example : uvarint 0 = [0] ∧ uvarint 127 = [0x7f] ∧ uvarint 128 = [0x80, 0x01] ∧ uvarint 255 = [0xff, 0x01] ∧
+    uvarint 256 = [0x80, 0x02] ∧ uvarint 300 = [0xac, 0x02] ∧ uvarint 16383 = [0xff, 0x7f] ∧
+    uvarint 16384 = [0x80, 0x80, 0x01] := by decide
+-- 64 booleans in a nested array (256 bytes of frames) do not collide with the regrouped `[[], true × 64]`
+set_option maxRecDepth 20000 in
+example : kb (.array [.array (List.replicate 64 (.bool true))]) ≠
+    kb (.array (.array [] :: List.replicate 64 (.bool true))) := by decide
 
 /-! ## keys -/
 
